@@ -191,3 +191,14 @@ func trunc(s string, n int) string {
 	}
 	return s
 }
+
+// planLines returns every line of every list of a plan.
+func planLines(lists []disk.ListPlan) (lines []string) {
+	for _, l := range lists {
+		if len(l.Text) > 1<<17 {
+			continue // the rare huge lists are not worth splitting
+		}
+		lines = append(lines, strings.Split(l.Text, "\n")...)
+	}
+	return lines
+}
